@@ -82,6 +82,9 @@ theorem runHandler_noerr : ∀ (h : Handler) (k : K), hCanFail h = false → NoE
   | .respond id st, k, _, _ => fun r t => by simp [runHandler, Out.isErr]
   | .rewrite id p, k, _, hk => fun r t => by simp [runHandler, hk _ _]
   | .fail id st, k, hf, _ => by simp [hCanFail] at hf
+  | .raise src, k, hf, _ => by simp [hCanFail] at hf
+  | .answer src, k, hf, _ => fun r t => by
+    cases src <;> simp [hCanFail] at hf <;> simp [runHandler, Src.resolve, Out.isErr]
   | .sub rs hasErrs errs, k, hf, hk => fun r t => by
     simp only [runHandler]
     cases hasErrs with
@@ -147,6 +150,10 @@ theorem h_ok : ∀ (h : Handler) (ks : Bool) (k : K) (r : Req) (t : Trace),
   | .respond id st, ks, k, r, t, _, _ => by simp [runHandler, specHandler, Res.bind]
   | .rewrite id p, ks, k, r, t, _, _ => by simp [runHandler, specHandler, Res.bind]
   | .fail id st, ks, k, r, t, _, _ => by simp [runHandler, specHandler, Res.bind]
+  | .raise src, ks, k, r, t, _, _ => by simp [runHandler, specHandler, Res.bind]
+  | .answer src, ks, k, r, t, _, _ => by
+    cases src <;> simp only [runHandler, specHandler, Res.bind] <;>
+      (try cases Src.resolve _ r) <;> simp
   | .sub rs hasErrs errs, ks, k, r, t, ho, hk => by
     simp only [runHandler, specHandler]
     cases hasErrs with
@@ -310,6 +317,9 @@ theorem specHandler_keeps : ∀ (h : Handler) (r : Req) (t : Trace), (specHandle
   | .respond id st, r, t => by simp [specHandler, Res.KeepsGroups]
   | .rewrite id p, r, t => by simp [specHandler, Res.KeepsGroups]
   | .fail id st, r, t => by simp [specHandler, Res.KeepsGroups]
+  | .raise src, r, t => by simp [specHandler, Res.KeepsGroups]
+  | .answer src, r, t => by
+    cases src <;> simp only [specHandler] <;> (try split) <;> simp [Res.KeepsGroups]
   | .sub rs hasErrs errs, r, t => by
     rw [specHandler]
     have h1 := specRoutes_keeps rs r t
@@ -322,7 +332,7 @@ theorem specHandler_keeps : ∀ (h : Handler) (r : Req) (t : Trace), (specHandle
       | err t' st r' =>
         cases hasErrs with
         | false => exact h1
-        | true => exact (specRoutes_keeps errs { r' with ctxErr := some st } t').mono h1
+        | true => exact (specRoutes_keeps errs (withError st r') t').mono h1
 theorem specRoutes_keeps : ∀ (rs : List Route) (r : Req) (t : Trace), (specRoutes rs r t).KeepsGroups r.groups
   | [], r, t => by simp [specRoutes, Res.KeepsGroups]
   | rt :: rs, r, t => by
@@ -355,6 +365,96 @@ theorem specRoute_keeps : ∀ (rt : Route) (r : Req) (t : Trace), (specRoute rt 
               simp [hs, Res.KeepsGroups]
             | false => simpa using h1
           | stop o => rw [hh] at h1; exact h1
+end
+
+/-! ### the `{http.error.status_code}` placeholder follows the error in the request context -/
+
+/-- the placeholder agrees with the context error whenever that is a `HandlerError` -/
+def Req.PlaceholderOk (r : Req) : Prop := ∀ st, r.ctxErr = some st → st ≠ 0 → r.replStatus = some st
+
+def Ev.PlaceholderOk (e : Ev) : Prop := ∀ st, e.err = some st → st ≠ 0 → e.repl = some st
+
+def Out.trace : Out → Trace
+  | .done t _ => t
+  | .err t _ _ => t
+
+/-- a rest-of-chain that keeps the invariant: from a good request and a good trace, a good trace -/
+def KPlaceholderOk (k : K) : Prop :=
+  ∀ r t, r.PlaceholderOk → (∀ e ∈ t, e.PlaceholderOk) → ∀ e ∈ (k r t).trace, e.PlaceholderOk
+
+theorem withError_ok (st : Nat) (r : Req) : (withError st r).PlaceholderOk := by
+  intro st' h hne
+  simp only [withError] at h ⊢
+  cases h
+  simp [hne]
+
+theorem ev_ok (id : Nat) (r : Req) (h : r.PlaceholderOk) : (ev id r).PlaceholderOk := h
+
+theorem markGroup_ok (g : Nat) (r : Req) (h : r.PlaceholderOk) : (markGroup g r).PlaceholderOk := by
+  unfold markGroup; split <;> exact h
+
+theorem snoc_ok {t : Trace} {e : Ev} (ht : ∀ e ∈ t, e.PlaceholderOk) (he : e.PlaceholderOk) :
+    ∀ e' ∈ t ++ [e], e'.PlaceholderOk := by
+  intro e' hm
+  rcases List.mem_append.mp hm with h | h
+  · exact ht e' h
+  · simp at h; subst h; exact he
+
+theorem kOk_emptyK : KPlaceholderOk emptyK := fun _ _ _ ht => ht
+theorem kOk_errorEmptyK : KPlaceholderOk errorEmptyK := fun _ _ _ ht => ht
+theorem kOk_termK (e : Req) : KPlaceholderOk (termK e) := by
+  unfold termK; split
+  · exact kOk_errorEmptyK
+  · exact kOk_emptyK
+
+mutual
+theorem runHandlers_pok : ∀ (hs : List Handler) (k : K), KPlaceholderOk k → KPlaceholderOk (runHandlers hs k)
+  | [], k, hk => by simpa [runHandlers] using hk
+  | h :: hs, k, hk => by
+    rw [runHandlers]; exact runHandler_pok h _ (runHandlers_pok hs k hk)
+theorem runHandler_pok : ∀ (h : Handler) (k : K), KPlaceholderOk k → KPlaceholderOk (runHandler h k)
+  | .pass id, k, hk => fun r t hr ht => by
+    simp only [runHandler]; exact hk r _ hr (snoc_ok ht (ev_ok id r hr))
+  | .respond id st, k, _ => fun r t hr ht => by
+    simp only [runHandler, Out.trace]; exact snoc_ok ht (ev_ok id r hr)
+  | .rewrite id p, k, hk => fun r t hr ht => by
+    simp only [runHandler]; exact hk _ _ hr (snoc_ok ht (ev_ok id r hr))
+  | .fail id st, k, _ => fun r t hr ht => by
+    simp only [runHandler, Out.trace]; exact snoc_ok ht (ev_ok id r hr)
+  | .raise src, k, _ => fun r t _ ht => by simpa [runHandler, Out.trace] using ht
+  | .answer src, k, _ => fun r t _ ht => by
+    cases src <;> simp only [runHandler, Src.resolve] <;> (try cases r.replStatus) <;>
+      simpa [Out.trace] using ht
+  | .sub rs hasErrs errs, k, hk => fun r t hr ht => by
+    simp only [runHandler]
+    have h1 := runRoutes_pok rs k hk r t hr ht
+    cases hrr : runRoutes rs k r t with
+    | done t' s => rw [hrr] at h1; exact h1
+    | err t' st r' =>
+      rw [hrr] at h1
+      cases hasErrs with
+      | false => exact h1
+      | true => exact runRoutes_pok errs k hk _ t' (withError_ok st r') h1
+theorem runRoutes_pok : ∀ (rs : List Route) (k : K), KPlaceholderOk k → KPlaceholderOk (runRoutes rs k)
+  | [], k, hk => by simpa [runRoutes] using hk
+  | rt :: rs, k, hk => by
+    rw [runRoutes]; exact runRoute_pok rt _ (runRoutes_pok rs k hk)
+theorem runRoute_pok : ∀ (rt : Route) (k : K), KPlaceholderOk k → KPlaceholderOk (runRoute rt k)
+  | .mk g sets hs term, k, hk => fun r t hr ht => by
+    simp only [runRoute]
+    cases anyMatch sets r with
+    | err st => simpa [Out.trace] using ht
+    | ok b =>
+      cases b with
+      | false => exact hk r t hr ht
+      | true =>
+        simp only
+        split
+        · exact hk r t hr ht
+        · apply runHandlers_pok hs _ _ _ t (markGroup_ok g r hr) ht
+          split
+          · exact kOk_termK r
+          · exact hk
 end
 
 end CaddyModel.C05
